@@ -148,6 +148,12 @@ func isoCorpus(e *ev.Env) {
 		{"adaptor-locals-then-probe", isoCase{Adaptor: true, History: []wreq{
 			{Kind: "locals", Raw: rawReq(reqSpec{Target: "/locals/alice"})}},
 			Probe: probeWith("/probeplain", ckNone, nil)}},
+		{"adaptor-locals-then-probe-2", isoCase{Adaptor: true, History: []wreq{
+			{Kind: "locals", Raw: rawReq(reqSpec{Target: "/locals/bob?id=bob"})}},
+			Probe: probeWith("/probeplain", ckNone, nil)}},
+		{"adaptor-locals-then-probe-3", isoCase{Adaptor: true, History: []wreq{
+			{Kind: "locals", Raw: rawReq(reqSpec{Target: "/locals/carol?id=carol"})}, {Kind: "base-url", Raw: rawReq(reqSpec{Target: "/base"})}},
+			Probe: probeWith("/probeplain", ckNone, nil)}},
 		{"server-error-path-then-probe", isoCase{History: []wreq{
 			{Kind: "locals", Cookie: ckValid, Raw: rawReq(reqSpec{Target: "/locals/h0", Cookie: one})},
 			{Kind: "malformed", Kills: true, Raw: []byte("GET\r\n\r\n")}},
